@@ -189,7 +189,10 @@ def run_case(job):
                 if target == 0:
                     match = lambda n: "_unpack_" not in os.path.basename(n)
                 else:
-                    match = lambda n, t=target: f"_unpack_{t - 1}." in os.path.basename(n)
+                    def match(n, t=target):
+                        import re
+                        m = re.search(r"_unpack_(\d+)\.", os.path.basename(n))
+                        return bool(m) and int(m.group(1)) == t - 1
                 resmod.open = FaultyOpen(match, fault["skip"], fault["mode"])
             if fault and fault["kind"] == "remove" and case["delete"]:
                 def bad_remove(*a, **k):
@@ -289,7 +292,8 @@ def run(ctx):
     thorough = ctx.tier == "thorough"
     # (nv, repmax(model), maxinc, delete, mismatch, sample)
     cfgs = [(2, 2, 2, True, True, None), (2, 3, 2, False, True, None), (2, 4, 2, True, True, None), (1, 7, 2, True, False, None),
-            (2, 4, 3, True, False, 250 if not thorough else 3000), (2, 7, 2, False, True, None if thorough else 120)]
+            (2, 4, 3, True, False, 250 if not thorough else 3000), (2, 7, 2, False, True, None if thorough else 120),
+            (11, 2, 2, True, False, 60 if not thorough else 600)]      # two-digit variation indexes in the partial file names
     if thorough:
         cfgs += [(3, 4, 2, True, True, None), (2, 7, 3, True, False, 3000), (2, 10, 2, True, True, None)]
     with ThreadPoolExecutor(4) as ex:
